@@ -71,6 +71,11 @@ def _report(t):
             return True
         except RuntimeError:
             return False
+        except OverflowError:
+            # start_time = timestamp + time_offset may not be representable; both members are still there
+            if name == "start_time":
+                return True
+            raise
     frozen = True
     for name in PUBLIC:
         try:
@@ -257,6 +262,20 @@ def gen_cases(rng, tier):
             cases.append({"k": "init", "ctor": "no_interval", "mode": 0, "ts": ts, "off": off, "si": none, "tss": none})
             for si in members:
                 cases.append({"k": "init", "ctor": "regular", "mode": 1, "ts": ts, "off": off, "si": si, "tss": none})
+    # members at the edge of their family's range: a timestamp and an offset whose sum is not representable are still
+    # two allowed members (only start_time needs the sum)
+    from props.common_time import ranges
+    for fam in ("Dt", "Ht", "Bt"):
+        lo_td, hi_td, lo_dtm, hi_dtm = ranges(fam)
+        u = UNIT[fam] if fam != "Bt" else 1
+        for ts, off in ((["dtm", fam, hi_dtm], ["td", fam, u]), (["dtm", fam, lo_dtm], ["td", fam, -u]),
+                        (["dtm", fam, hi_dtm], ["td", fam, hi_td]), (["dtm", fam, lo_dtm], ["td", fam, lo_td]),
+                        (["dtm", fam, hi_dtm], none), (["dtm", fam, 0], ["td", fam, hi_td])):
+            si = ["td", fam, UNIT[fam]]
+            cases.append({"k": "init", "mode": 0, "ts": ts, "off": off, "si": none, "tss": none})
+            cases.append({"k": "init", "mode": 1, "ts": ts, "off": off, "si": si, "tss": none})
+            cases.append({"k": "init", "ctor": "no_interval", "mode": 0, "ts": ts, "off": off, "si": none, "tss": none})
+            cases.append({"k": "init", "ctor": "regular", "mode": 1, "ts": ts, "off": off, "si": si, "tss": none})
     for tss in tsss:
         cases.append({"k": "init", "ctor": "irregular", "mode": 2, "ts": none, "off": none, "si": none, "tss": tss})
     # the general constructor with copy_timestamps given, over list / tuple / UserList inputs
